@@ -28,7 +28,7 @@ PROBES = ["family_general", "family_feasible", "family_infeasible", "feasible_wi
 
 
 def budget(tier):
-    return 6000 if tier == "quick" else 2000000
+    return 9000 if tier == "quick" else 2000000
 
 
 def bound(model, cfg):
